@@ -570,7 +570,11 @@ pub fn run_c06(o: &Opts) -> i32 {
         let c = *rng.pick(&["1", "3", "2.5", "1|7", "1000", "1e-3", "12"]);
         let src = format!("{} {}", coef_pos(&mut rng), a);
         let x = db.rand_name(&mut rng);
-        let text = match rng.below(15) {
+        let text = match rng.below(18) {
+            // dimensionless results converted to a bare constant or a constant times a dimensionless unit
+            15 => format!("{} -> {}", coef_pos(&mut rng), c),
+            16 => format!("{} {} / {} -> {}", coef_pos(&mut rng), a, b, c),
+            17 => format!("{} {} / {} -> {} {}", coef_pos(&mut rng), a, b, c, *rng.pick(&["dozen", "percent", "score", "gross"])),
             // the same unit on both sides of a division in the target; a constant under a (negative) power
             8 => format!("{} -> {} {} / {}", src, b, x, x),
             9 => format!("{} / {}^2 -> {} / {} / {}", src, x, b, x, x),
